@@ -472,6 +472,13 @@ private:
         n.write_bytes_be(signum, data);
         std::size_t length = data.size();
 
+        if (pack_strings_ && length >= jsoncons::cbor::detail::min_length_for_stringref(next_stringref_))
+        {
+            // the byte string of a bignum is a string of the stringref namespace like any other: a decoder gives it the next index
+            bytestringref_map_.emplace(std::make_pair(byte_string_type(data.data(), data.size(), alloc_), next_stringref_));
+            ++next_stringref_;
+        }
+
         if (is_neg)
         {
             write_tag(3);
